@@ -25,7 +25,7 @@ type gVal struct {
 }
 
 // the last key contains U+09DF, whose NFC form is two code points: printing normalises it, storage must not
-var c12Keys = []string{"k", "v", "name", "ক", "n2", "ব\u09dfস", "k2", "k10", "ধাপ২", "ধাপ১০", "K", bn.BLen, bn.BKeys} // the last two: spelled like built-in functions, which bars them as declared names only
+var c12Keys = []string{"k", "v", "name", "ক", "n2", "ব\u09dfস", "k2", "k10", "ধাপ২", "ধাপ১০", "K", bn.BLen, bn.BKeys, "nan", "Inf"} // spelled like built-in functions (that bars them as declared names only); spelling special numbers
 
 type c12Gen struct {
 	pick   func(string, int) int
@@ -378,7 +378,11 @@ var c12Small = map[string]int{"valKind": 2, "oddVal": 2, "x": 2, "y": 2, "nested
 func TestC12(t *testing.T) {
 	Main(t, "C12", func(c *Ctx) {
 		c.OnReplay("objects", func(s *Sub, rp *Replay) { c.c12Program(s, "replay", rp.Source, true) })
+		c.OnReplay("names", func(s *Sub, rp *Replay) { c.c15EquivalentNames(s, "names") })
 		c.ReplayTier()
+
+		// names that some normalisation or case folding would identify are different keys: an object given both has both
+		c.Sub("equivalent-property-names", func(s *Sub) { c.c15EquivalentNames(s, "names") })
 
 		c.Sub("faults", func(s *Sub) {
 			if c.Shard != 0 {
